@@ -258,7 +258,106 @@ func (c c01case) check(r *Run) {
 		}
 		got := recs[0]
 		c.compare(r, rline, got, text, quote)
+		c.crlfCheck(r, regS, text, []seqio.GenBank{got})
 	})
+}
+
+// ---------------------------------------------------------------------------
+// CRLF input: the written text after a transport in text mode (every "\n" -> "\r\n")
+
+func c01ToCRLF(t string) string { return strings.ReplaceAll(t, "\n", "\r\n") }
+
+// quotedMultiLine: some value that is written between quotes (name registered as quoted, or
+// unknown) contains a line feed — the negation of the guard quotedOneLine of
+// read_write_crlf_partial (Props/C01.lean).
+func quotedMultiLine(tab []gts.Feature, reg registry) bool {
+	for _, f := range tab {
+		for _, row := range f.Props {
+			if len(row) == 0 {
+				continue
+			}
+			t := qualifierType(row[0], reg)
+			if t == seqio.QuotedQualifier || t == seqio.UnknownQualifier {
+				for _, v := range row[1:] {
+					if strings.Contains(v, "\n") {
+						return true
+					}
+				}
+			}
+		}
+	}
+	return false
+}
+
+// crlfExpected: readBackC of Props/C01.lean on the record that was read from the LF text: every
+// value of a name that was WRITTEN between quotes (its type under the registry of write time)
+// CRLF-translated, everything else as it is.
+func crlfExpected(gb seqio.GenBank, reg registry) seqio.GenBank {
+	tab := make(gts.FeatureSlice, len(gb.Table))
+	for i, f := range gb.Table {
+		ps := make(gts.Props, len(f.Props))
+		for j, row := range f.Props {
+			nr := append([]string(nil), row...)
+			if len(nr) > 0 {
+				t := qualifierType(nr[0], reg)
+				if t == seqio.QuotedQualifier || t == seqio.UnknownQualifier {
+					for k := 1; k < len(nr); k++ {
+						nr[k] = c01ToCRLF(nr[k])
+					}
+				}
+			}
+			ps[j] = nr
+		}
+		tab[i] = gts.Feature{Key: f.Key, Loc: f.Loc, Props: ps}
+	}
+	return seqio.GenBank{Fields: gb.Fields, Table: tab, Origin: gb.Origin}
+}
+
+// crlfCheck: the CRLF translation of a written text (one record or a stream) goes to both sides as
+// gb.read (correspondence of the reader on CRLF input: header fields, key lines, qualifiers, the
+// slow ORIGIN path, the terminator) and is read on the real code with the auto scanner.  Oracles:
+// (exact, read_write_crlf_exact / read_stream_crlf_exact) as many records as from the LF text, each
+// the LF record with the values written between quotes CRLF-translated; (guarded,
+// read_write_crlf_partial) without a line feed in such a value the records are EQUAL to the LF
+// records.  lf holds the records read from the LF text.  Must be called with the registry c.reg /
+// the stream's registry current; leaves it so.
+func (c c01case) crlfCheck(r *Run, regS, text string, lf []seqio.GenBank) {
+	ct := c01ToCRLF(text)
+	cline := "gb.read " + regS + " " + encStr(ct)
+	setRegistry(registry{})
+	r.op(cline)
+	setRegistry(c.reg)
+	multi := false
+	for _, gb := range lf {
+		multi = multi || quotedMultiLine(gb.Table, c.reg)
+	}
+	if multi {
+		r.count("crlf/quoted value with a line feed (exact oracle: the value comes back CRLF-translated)")
+	} else {
+		r.count("crlf/reads as the LF text (guard quotedOneLine)")
+	}
+	recs, ok, pn := scanAll(ct)
+	setRegistry(c.reg)
+	if pn || !ok || len(recs) != len(lf) {
+		r.fail(Failure{Oracle: "the CRLF translation of the written text reads as many records as the text, without error", Op: cline,
+			Got: fmt.Sprintf("records=%d ok=%v panic=%v", len(recs), ok, pn), Want: fmt.Sprintf("records=%d ok=true", len(lf))})
+		return
+	}
+	for i := range lf {
+		want := encRecord(crlfExpected(lf[i], c.reg))
+		if got := encRecord(recs[i]); got != want {
+			r.fail(Failure{Oracle: "the CRLF translation reads as the LF text, values written between quotes CRLF-translated (read_write_crlf_exact)",
+				Op: cline, Got: got, Want: want})
+			return
+		}
+		if !multi {
+			if got, same := encRecord(recs[i]), encRecord(lf[i]); got != same {
+				r.fail(Failure{Oracle: "without a line feed in a quoted value the CRLF translation reads exactly as the LF text (read_write_crlf_partial)",
+					Op: cline, Got: got, Want: same})
+				return
+			}
+		}
+	}
 }
 
 // compare: fidelity and the write-read-write fixed point for one record.
@@ -1281,6 +1380,10 @@ func propC01(r *Run) {
 						Got: encRecord(got[j]), Want: encRecord(alone[0])})
 				}
 			}
+			// the same stream after a CRLF-translating transport (read_stream_crlf_exact / _partial)
+			setRegistry(reg)
+			c01case{name: "stream", reg: reg}.crlfCheck(r, regS, text, got)
+			r.count("crlf/stream")
 		})
 	}
 
@@ -1348,6 +1451,7 @@ func propC01(r *Run) {
 	leakCases(r)
 
 	r.notes = append(r.notes,
+		"CRLF input: the CRLF translation of the text of every domain record whose LF text reads back as one record, and of every stream, goes to both sides as gb.read and is read on the real code (exact oracle: values written between quotes come back CRLF-translated, finding F36; equal to the LF reading when no such value holds a line feed); histogram crlf/*",
 		fmt.Sprintf("generated records %d (+%d with known-finding shapes), edit pipelines %d, streams %d, damaged texts %d, tables %d; sequence lengths 0..200 exhaustively (+CONTIG every 10, CONTIG-only); dates: %d years x 12 months (all days for 1900/2000/2023, all for every listed year in thorough)", nGen, nFind, nPipe, nStream, nDamage, nQual, len(years)),
 		"the registries are reset to seqio's initial lists plus the case's names before, and restored after, every case; the same names go to the model")
 }
